@@ -128,4 +128,44 @@ __CPROVER_ensures((field == NULL || field[0] == 0) ==> which->tracked == NULL)
 __CPROVER_ensures((field != NULL && field[0] != 0 && STREQ8(g_json_key, field)) ==> which->tracked == NULL)
 __CPROVER_ensures((field != NULL && field[0] != 0 && !STREQ8(g_json_key, field)) ==> which->tracked == __CPROVER_old(which->tracked))
 ;
+
+/* ---- the public wrappers jwt_header_* / jwt_claim_* -> __run_it -> doer: they hand exactly the
+ * token's header resp. claims object and the caller's value to the doer and return its answer;
+ * NULL arguments are INVALID.  The doers are replaced by RECORDING projections of their C15
+ * contracts (which object, which value, which answer). ---- */
+extern int g_doer_kind, g_doer_ret; extern const json_t *g_doer_which; extern const void *g_doer_arg;
+#define DECL_rec_doer(NAME, KIND) \
+jwt_value_error_t NAME(json_t *which, jwt_value_t *value) \
+__CPROVER_requires(value != NULL && __CPROVER_rw_ok(value, sizeof(*value))) \
+__CPROVER_assigns(value->error, g_doer_kind, g_doer_ret, g_doer_which, g_doer_arg) \
+__CPROVER_ensures(g_doer_kind == (KIND) && g_doer_which == which && g_doer_arg == value && g_doer_ret == (int)__CPROVER_return_value)
+DECL_rec_doer(contract_rec___getter, 1);
+DECL_rec_doer(contract_rec___setter, 2);
+jwt_value_error_t contract_rec___deleter(json_t *which, const char *field)
+__CPROVER_assigns(g_doer_kind, g_doer_ret, g_doer_which, g_doer_arg)
+__CPROVER_ensures(g_doer_kind == 3 && g_doer_which == which && g_doer_arg == field && g_doer_ret == (int)__CPROVER_return_value)
+;
+#define DECL_wrapper(NAME, KIND, DOC) \
+jwt_value_error_t NAME(jwt_t *jwt, jwt_value_t *value) \
+__CPROVER_requires(jwt == NULL || __CPROVER_is_fresh(jwt, sizeof(*jwt))) \
+__CPROVER_requires(value == NULL || __CPROVER_is_fresh(value, sizeof(*value))) \
+__CPROVER_requires(g_doer_kind == 0) \
+__CPROVER_assigns(value != NULL: value->error; g_doer_kind, g_doer_ret, g_doer_which, g_doer_arg) \
+__CPROVER_ensures((jwt == NULL || value == NULL) ==> (__CPROVER_return_value == JWT_VALUE_ERR_INVALID && g_doer_kind == 0)) \
+__CPROVER_ensures((jwt == NULL && value != NULL) ==> value->error == JWT_VALUE_ERR_INVALID) \
+__CPROVER_ensures((jwt != NULL && value != NULL) ==> (g_doer_kind == (KIND) && g_doer_which == jwt->DOC && g_doer_arg == value && \
+	(int)__CPROVER_return_value == g_doer_ret))
+DECL_wrapper(contract_C15_jwt_header_get, 1, headers);
+DECL_wrapper(contract_C15_jwt_header_set, 2, headers);
+DECL_wrapper(contract_C15_jwt_claim_get, 1, claims);
+DECL_wrapper(contract_C15_jwt_claim_set, 2, claims);
+#define DECL_wrapper_del(NAME, DOC) \
+jwt_value_error_t NAME(jwt_t *jwt, const char *field) \
+__CPROVER_requires(jwt == NULL || __CPROVER_is_fresh(jwt, sizeof(*jwt))) \
+__CPROVER_requires(g_doer_kind == 0) \
+__CPROVER_assigns(g_doer_kind, g_doer_ret, g_doer_which, g_doer_arg) \
+__CPROVER_ensures(jwt == NULL ==> (__CPROVER_return_value == JWT_VALUE_ERR_INVALID && g_doer_kind == 0)) \
+__CPROVER_ensures(jwt != NULL ==> (g_doer_kind == 3 && g_doer_which == jwt->DOC && g_doer_arg == field && (int)__CPROVER_return_value == g_doer_ret))
+DECL_wrapper_del(contract_C15_jwt_header_del, headers);
+DECL_wrapper_del(contract_C15_jwt_claim_del, claims);
 #endif
